@@ -543,6 +543,12 @@ class DiskSystem(System):
             # a supplied (non-default) hash strategy has to be re-supplied on reopen and must then be honoured
             cfgs.append(dict(part="replay", n=n, p=p, mode="sub", strat="md5", depth=(4 if prop == "C11" else 3) if quick else 5,
                              cost=15000))
+        # scale-up: bit arrays of 240 bytes and ~6 kB (longer than a 64-byte line / a 4096-byte page), a reduced menu
+        for n, p in ((200, 0.01), (5000, 0.01)):
+            if prop == "C11" and n == 200:
+                cfgs.append(dict(part="crash", n=n, p=p, depth=2, cost=20000))
+            cfgs.append(dict(part="replay", n=n, p=p, mode="sub", strat="fnv", depth=(3 if n > 1000 else 4) if quick else 5,
+                             ops=["add:a", "add:b", "add:c", "close", "reopen:chdir", "clear", "export:chdir", "query"], cost=15000))
         if prop == "C11":
             for h in ([["add:a", "add:b", "close"]] if quick else [["add:a", "add:b", "close"], ["add:a", "export", "add:b"], ["add:b", "add:b", "close"]]):
                 cfgs.append(dict(part="sigkill", n=10, p=0.05, ops=h, stride=2 if quick else 1, cost=20000))
